@@ -98,7 +98,8 @@ def monC13f (c : MonCtx) : Mon C13fSt where
     if !c.cfg.stream then some st else
     match l with
     | .stopReq _ true | .ctxStop true => some { st with stopAccepted := true }
-    | .begin o _ (.send m) | .begin o _ (.trySend m) => some { st with sends := (o, m) :: st.sends }
+    | .begin o _ (.send m) | .begin o _ (.trySend m) | .begin o _ (.tryForce m) =>
+      some { st with sends := (o, m) :: st.sends }
     | .ret o .ok =>
       (match lookup o st.sends with
        | some m => if st.handled.contains m then some st else some { st with waiting := (m, 0) :: st.waiting }
